@@ -66,6 +66,12 @@ func c10LocalFacts(p *Prog, r *Report) {
 			n++
 			okSrc := false
 			why := "it is " + valDesc(v)
+			// (handed to a private helper that builds the literal: judged at the helper's call site)
+			if par, isPar := v.(*ssa.Parameter); isPar {
+				if os := originsInter(p, par, 2); len(os) == 1 {
+					v = os[0]
+				}
+			}
 			if f, hostV := loadedField(v); f != nil && f.Name() == "DC" && hostV != nil {
 				// hostV = *(&S[0])
 				if ld, ok := hostV.(*ssa.UnOp); ok {
@@ -1184,30 +1190,46 @@ func c10Rows(p *Prog, r *Report) {
 	// the peers loop ranges over proxy.nodes and skips exactly the local node
 	skipOK, countOK := false, false
 	for _, sf := range withCallees(p, fn, 2) {
-	eachInstr(sf, func(in ssa.Instruction) {
-		if bo, ok := in.(*ssa.BinOp); ok && (bo.Op == token.NEQ || bo.Op == token.EQL) {
-			fx, _ := loadedField(bo.Y)
-			if fx == localF {
-				// the other side is an element of nodes
-				if ld, ok := bo.X.(*ssa.UnOp); ok {
-					if ia, ok := ld.X.(*ssa.IndexAddr); ok {
-						if f, _ := loadedField(ia.X); f == nodesF {
-							skipOK = true
+		eachInstr(sf, func(in ssa.Instruction) {
+			if bo, ok := in.(*ssa.BinOp); ok && (bo.Op == token.NEQ || bo.Op == token.EQL) {
+				fx, _ := loadedField(bo.Y)
+				if fx == localF {
+					// the other side is an element of nodes
+					if ld, ok := bo.X.(*ssa.UnOp); ok {
+						if ia, ok := ld.X.(*ssa.IndexAddr); ok {
+							if f, _ := loadedField(ia.X); f == nodesF {
+								skipOK = true
+							}
+						}
+					}
+					// ... or the element handed to the predicate of a filter over nodes whose result is
+					// what the rows are built from
+					if par, ok := bo.X.(*ssa.Parameter); ok && bo.Op == token.NEQ && par.Parent().Parent() != nil {
+						cf := par.Parent()
+						eachCall(cf.Parent(), func(fc ssa.CallInstruction) {
+							if !p.filterShape(fc.Common().StaticCallee()) || len(fc.Common().Args) != 2 {
+								return
+							}
+							if f, _ := loadedField(fc.Common().Args[0]); f != nodesF {
+								return
+							}
+							if ts := p.funcValueTargets(fc.Common().Args[1], 1); len(ts) == 1 && ts[0] == cf && len(predReturnConds(p, fc.Common().Args[1])) == 1 {
+								skipOK = true
+							}
+						})
+					}
+				}
+			}
+			if bo, ok := in.(*ssa.BinOp); ok && bo.Op == token.SUB {
+				if one, ok := constInt(bo.Y); ok && one == 1 {
+					if la := lenArg(bo.X); la != nil {
+						if f, _ := loadedField(la); f == nodesF {
+							countOK = true
 						}
 					}
 				}
 			}
-		}
-		if bo, ok := in.(*ssa.BinOp); ok && bo.Op == token.SUB {
-			if one, ok := constInt(bo.Y); ok && one == 1 {
-				if la := lenArg(bo.X); la != nil {
-					if f, _ := loadedField(la); f == nodesF {
-						countOK = true
-					}
-				}
-			}
-		}
-	})
+		})
 	}
 	if !skipOK {
 		bad = append(bad, "the peers rows are not `every node except the local node`")
@@ -1227,18 +1249,18 @@ func c10Rows(p *Prog, r *Report) {
 		}
 	}
 	for _, bf := range bnFns {
-	eachCall(bf, func(c ssa.CallInstruction) {
-		if callIsFunc(c, "proxy", "compareIPAddr") {
-			v := c.(ssa.Value)
-			for _, ref := range *v.Referrers() {
-				if bo, ok := ref.(*ssa.BinOp); ok && bo.Op == token.EQL {
-					if k, ok := constInt(bo.Y); ok && k == 0 {
-						drops = true
+		eachCall(bf, func(c ssa.CallInstruction) {
+			if callIsFunc(c, "proxy", "compareIPAddr") {
+				v := c.(ssa.Value)
+				for _, ref := range *v.Referrers() {
+					if bo, ok := ref.(*ssa.BinOp); ok && bo.Op == token.EQL {
+						if k, ok := constInt(bo.Y); ok && k == 0 {
+							drops = true
+						}
 					}
 				}
 			}
-		}
-	})
+		})
 	}
 	r.check(drops, rule, "Proxy.buildNodes:self-peer", p.Pos(bn.Pos()), "", "a peer entry equal to the proxy's own address is not dropped (the proxy would list itself as a peer)")
 }
